@@ -1,7 +1,7 @@
 // extract-C15 <repo> <gen-dir>: the arms of the two type switches the C15 model transcribes —
 // the event switch of App.Run and App.handleCommand — as Gen/VxfwCases.lean: for every case
 // clause its label(s) and, in source order, the fields it assigns (`set x.y`) and the functions
-// it calls (`call recv.name`, last two selector components). Theorems in Props/C15Gen.lean
+// it calls (`call name`; only the final selector component, so renaming a local variable is not a change). Theorems in Props/C15Gen.lean
 // compare these with the arms the model was written against, so adding, removing or re-wiring an
 // arm makes a proof obligation fail. Everything inside the called functions is tied by the
 // correspondence streams, not here.
@@ -25,12 +25,10 @@ func show(n ast.Node) string {
 	return strings.Join(strings.Fields(b.String()), " ")
 }
 
+// last2 is the final selector component (receiver / variable names are not part of the tie).
 func last2(e ast.Expr) string {
 	parts := strings.Split(show(e), ".")
-	if len(parts) > 2 {
-		parts = parts[len(parts)-2:]
-	}
-	return strings.Join(parts, ".")
+	return parts[len(parts)-1]
 }
 
 func caseLabel(cc *ast.CaseClause) string {
